@@ -76,6 +76,8 @@ type OpSpec struct {
 	Stop      bool           `json:"stop_on_failed,omitempty"`
 	FailedOp  []string       `json:"failed_when_op,omitempty"`
 	Complete  []string       `json:"complete_patterns,omitempty"`
+	Interim   []string       `json:"interim_prompt_patterns,omitempty"`
+	OptSeed   uint64         `json:"opt_seed,omitempty"` // != 0: the option list is shuffled with this seed
 	IdleUS    int64          `json:"idle_us,omitempty"`
 	// Lines is the expected result (normalised output lines) of a send, by construction.
 	Lines [][]string `json:"lines,omitempty"`
@@ -309,6 +311,17 @@ func opOpts(sc *Session, op *OpSpec) []util.Option {
 			ps = append(ps, regexp.MustCompile(p))
 		}
 		o = append(o, opoptions.WithCompletePatterns(ps))
+	}
+	if len(op.Interim) > 0 {
+		var ps []*regexp.Regexp
+		for _, p := range op.Interim {
+			ps = append(ps, regexp.MustCompile(p))
+		}
+		o = append(o, opoptions.WithInterimPromptPattern(ps))
+	}
+	if op.OptSeed != 0 {
+		r := kernel.Stream(op.OptSeed, "opts")
+		r.Shuffle(len(o), func(i, j int) { o[i], o[j] = o[j], o[i] })
 	}
 
 	return o
